@@ -476,10 +476,10 @@ func init() {
 			m.Apply(pt.Action{Op: "dins", T: "a", P: 2, N: 2, V: "p"})
 		}
 		if p.Prefix == "nest3" { // non-initial start state: containers two levels below the root, with handles taken
-			m.Apply(pt.Action{Op: "dput", K: "a", V: "n"})                  // a = {o:{p,q}}
-			m.Apply(pt.Action{Op: "dput", K: "b", V: "na"})                 // b = {l:[..], m}
-			m.Apply(pt.Action{Op: "dput", T: "a/o", K: "x", V: "p"})        // handle a/o
-			m.Apply(pt.Action{Op: "dins", T: "b/l", P: 0, N: 1, V: "p"})    // handle b/l
+			m.Apply(pt.Action{Op: "dput", K: "a", V: "n"})               // a = {o:{p,q}}
+			m.Apply(pt.Action{Op: "dput", K: "b", V: "na"})              // b = {l:[..], m}
+			m.Apply(pt.Action{Op: "dput", T: "a/o", K: "x", V: "p"})     // handle a/o
+			m.Apply(pt.Action{Op: "dins", T: "b/l", P: 0, N: 1, V: "p"}) // handle b/l
 		}
 		return m
 	}
